@@ -43,6 +43,7 @@ fn main() {
         ("replay", "snapinstall") => snapinstall::replay(&args[3..]),
         ("replay", "cfgcenter") => cfgcenter::replay(&args[3..]),
         ("replay", "registry") => registry::replay(&args[3..]),
+        ("record", "registry-many") => registry::many_instances(&args[3..]),
         ("record", "seqgroup") => seq::record_seqgroup(&args[3..]),
         ("record", "seqnode") => seq::record_seqnode(&args[3..]),
         ("replay", "ownership") => ownership::replay(&args[3..]),
